@@ -38,6 +38,7 @@ def run(ctx):
     from . import c03 as c03_
     for c_ in ('x86_64',):      # the Neon schedule is compared by C03 / C09 / C14 (aarch64 facts); here the x86 engines
         ctx.guard('C08.analysable', ctx.shared, {'C03.a-schedule-siblings': 'C08.i-envelope-works-on-every-engine'}, c03_.schedules, ctx, ctx.facts(c_), c_)
+        ctx.guard('C08.analysable', ctx.shared, {'C03.i-byte-order-fixed': 'C08.i-envelope-works-on-every-engine'}, c03_.byte_order, ctx, ctx.facts(c_), c_)
     ctx.rule('C08.j-every-size-repacked-once', 'a supported configuration works for every even shard size: the final-block re-packing runs exactly once on every path that produces a result, for both rates (clause shared with C04.b)')
     from . import c04 as c04_
     ctx.guard('C08.analysable', ctx.shared, {'C04.b-unencode-once-last': 'C08.j-every-size-repacked-once'}, c04_.unencode, ctx, ctx.facts(cfgs[0]), cfgs[0])
